@@ -122,6 +122,11 @@ impl<K, V, P> Piece<K, V, P> {
         unsafe { &*self.properties }
     }
 
+    /// Return `true` if the two pieces refer to the same record.
+    pub fn ptr_eq(&self, other: &Self) -> bool {
+        std::ptr::eq(self.record, other.record)
+    }
+
     pub(crate) fn into_record<E>(mut self) -> Arc<Record<E>>
     where
         E: Eviction<Key = K, Value = V, Properties = P>,
